@@ -28,3 +28,9 @@ pub mod c12_vars;
 mod c01_combined;
 #[cfg(any(kani, test))]
 mod c11_transform;
+#[cfg(any(kani, test))]
+mod c06_rewrite;
+#[cfg(any(kani, test))]
+mod c13_utils;
+#[cfg(any(kani, test))]
+mod c12_fix_forms;
